@@ -202,7 +202,12 @@ def run_prepare_intervals(cls):
     multi = ("self.right_disp_min = -self.disp_max" in stmts and "self.right_disp_max = -self.disp_min" in stmts)
     user = ("self.dmin_user_right = self.right_disp_min" in stmts and "self.dmax_user_right = self.right_disp_max" in stmts
             and "self.dmin_user = self.disp_min" in stmts and "self.dmax_user = self.disp_max" in stmts)
-    return {"single_scale_negated_swapped": single, "multi_scale_negated_swapped": multi, "user_copies": user}
+    # the downscaling must commute with negation (true division does, floor division does not)
+    down = ("self.disp_min = left_img['disparity'].sel(band_disp='min') / self.scale_factor ** self.num_scales" in stmts
+            and "self.disp_max = left_img['disparity'].sel(band_disp='max') / self.scale_factor ** self.num_scales" in stmts
+            and "self.disp_min = left_img['disparity'].sel(band_disp='min').data" in stmts
+            and "self.disp_max = left_img['disparity'].sel(band_disp='max').data" in stmts)
+    return {"single_scale_negated_swapped": single, "multi_scale_negated_swapped": multi, "user_copies": user and down}
 
 
 def extract():
